@@ -8,6 +8,7 @@ import (
 	"fmt"
 	"sort"
 	"strings"
+	"time"
 
 	"verif/sched"
 
@@ -37,6 +38,7 @@ type cfg struct {
 	tasks   []int
 	batch2  int  // number of pausing tasks in the second batch (0 = none)
 	handler bool
+	timed   bool // the first wait is Wait(timeout): the timer is a virtual thread, it may fire at any moment
 }
 
 func (c cfg) eff() int {
@@ -54,6 +56,9 @@ func (c cfg) name() string {
 	h := "handler"
 	if !c.handler {
 		h = "nohandler"
+	}
+	if c.timed {
+		h += "/timed-wait-first"
 	}
 	return fmt.Sprintf("limit%d/%s/batch2=%d/%s", c.limit, strings.Join(ks, ","), c.batch2, h)
 }
@@ -93,6 +98,13 @@ func scenario(c cfg) sched.Spec {
 				for i, k := range c.tasks {
 					i, k := i, k
 					t.Op("Go", i, func() any { l.Go(body(i, k, false)); return nil })
+					if x.Failed() {
+						return
+					}
+				}
+				if c.timed {
+					// may return before the tasks are done (timeout) or after: nothing is asserted here
+					t.Op("WaitTimeout", 0, func() any { l.Wait(time.Millisecond); return nil })
 					if x.Failed() {
 						return
 					}
@@ -208,7 +220,7 @@ func main() {
 				if eff >= 2 && k == 2 {
 					th = 3
 				}
-				add(cfg{limit, tasks, b2, true}, q, th)
+				add(cfg{limit, tasks, b2, true, false}, q, th)
 			}
 		}
 		if limit < 1 {
@@ -223,17 +235,22 @@ func main() {
 		}
 		for k := eff + 1; k <= eff+2 && k <= 4; k++ {
 			for _, cv := range cover {
-				add(cfg{limit, cv[:k], 0, true}, 2, 3)
+				add(cfg{limit, cv[:k], 0, true, false}, 2, 3)
 			}
 		}
+		// Wait(timeout) first: timer and waiter goroutine are virtual threads
+		add(cfg{limit, []int{pauseRet}, eff + 1, true, true}, 2, 3)
+		if eff <= 2 {
+			add(cfg{limit, []int{pauseRet, pausePnc}, eff + 1, true, true}, 2, 3)
+		}
 		// nil handler (default printing path), with and without panics
-		add(cfg{limit, []int{pnc, pauseRet}[:min(2, eff+1)], eff + 1, false}, 2, 3)
-		add(cfg{limit, []int{pausePnc}, 0, false}, 2, U)
+		add(cfg{limit, []int{pnc, pauseRet}[:min(2, eff+1)], eff + 1, false, false}, 2, 3)
+		add(cfg{limit, []int{pausePnc}, 0, false, false}, 2, U)
 	}
 	sched.Main("C19", specs,
 		[]string{
 			"small scope: limits 1,2,3 (and 0,-1 -> 3), up to limit+2 (<= 4) submitted functions of four kinds (return, stay inside for a while, panic, stay then panic), a second batch of limit+1 functions after the first Wait",
-			"Wait(timeout) (real timer) and panicking handlers are outside the check; Wait is called by the submitting goroutine after its Go calls",
+			"Wait(timeout) is explored with the timer modelled as a virtual thread that may fire at any moment (no wall clock); panicking handlers are outside the check; Wait is called by the submitting goroutine after its Go calls",
 			"preemption-bounded where the schedule space does not close: the evidence lists the bound completed per scenario",
 		},
 		"states = distinct happens-before signatures; every execution runs the real instrumented goz/goz.go; the number of functions inside their body (a shim atomic counter) must never exceed the limit; after Wait returns every function has completed exactly once; the handler receives exactly the panic values; a panic escaping a goroutine, a deadlock (leaked token blocks the second batch) and, over all schedules of the second batch, never reaching `limit` concurrent functions are violations; non-trivial = distinct histories")
